@@ -4,7 +4,7 @@ import itertools
 from jsonpath import JSONPointer
 
 from . import sx as SX
-from .common import (SMALL_DOCS, exc_name, find_identity, parts_typed, parts_to_sx, rfc6901_spell, sx_parts_typed,
+from .common import (pointer_of_typed_parts, SMALL_DOCS, exc_name, find_identity, parts_typed, parts_to_sx, rfc6901_spell, sx_parts_typed,
                      sx_to_loc, deep)
 
 ID = "C14"
@@ -132,7 +132,7 @@ def _eval(e):
         return JSONPointer.from_parts([p[1] for p in e[2]], unicode_escape=e[1])
     if k == "of-parts":
         parts = tuple(p[1] for p in e[1])
-        return JSONPointer(JSONPointer._encode(parts), parts=parts, unicode_escape=False)
+        return pointer_of_typed_parts(parts)
     if k == "parent":
         return _eval(e[1]).parent()
     if k == "div":
